@@ -44,7 +44,9 @@ Objs == << <<<<"F", I(10)>>>>, <<<<"F", Sx>>>>, <<>> >>
 
 \* post-Prepare actions
 Acts == << <<"run", 1>>, <<"run", 2>>, <<"exec", 1>>, <<"exec", 2>>, <<"exec", 3>>, <<"get", "x">>, <<"get", "n">>, <<"get", "r">>, <<"get", "zz">>,
-           <<"set", "v", I(9)>>, <<"set", "n", I(100)>>, <<"set", "v", N>>, <<"set", "F", Sx>>, <<"set", "F", N>> >>
+           <<"set", "v", I(9)>>, <<"set", "n", I(100)>>, <<"set", "v", N>>, <<"set", "F", Sx>>, <<"set", "F", N>>,
+           \* AddFunction again under the name of the host function: from then on the new one is called
+           <<"fn", <<"val", I(42)>>>>, <<"fn", <<"log">>>> >>
 NActs == Len(Acts)
 
 Prog(sc) == CASE sc = 1 -> Script1 [] sc = 2 -> Script2 [] sc = 3 -> Script3
@@ -62,6 +64,8 @@ Steps(sc, as, i, g, host) ==
                   \o Steps(sc, as, i + 1, r.g, host))
        ELSE IF a[1] = "get" THEN
             <<[act |-> "get", name |-> a[2], exp |-> [out |-> IF Has(g, a[2]) THEN Get(g, a[2]) ELSE N]]>> \o Steps(sc, as, i + 1, g, host)
+       ELSE IF a[1] = "fn" THEN
+            <<[act |-> "fn", name |-> "h", kind |-> a[2]]>> \o Steps(sc, as, i + 1, g, <<<<"h", a[2]>>>>)
        ELSE <<[act |-> "set", name |-> a[2], val |-> a[3]]>> \o Steps(sc, as, i + 1, Put(g, a[2], a[3]), host)
 
 Row(sc, v, hk, opt, withN, as) ==
